@@ -175,3 +175,829 @@ Section NoFuel.
     apply awf_eq; [exact R | cbn; lia | exact L].
   Qed.
 End NoFuel.
+
+(* ------------------------------------------------------------------ part 2: states as lists of tagged events *)
+
+Definition enc (l : list (tag * uev)) : list Z := flat_map encode (map snd l).
+Definition marker_ev (v t : Z) : uev := mkU false c_O c_F v t [].
+Definition OFb (t : Z) : tag * uev := (Lib, marker_ev c_LB t).
+Definition OFe (t : Z) : tag * uev := (Lib, marker_ev c_RB t).
+
+Lemma enc_app a b : enc (a ++ b) = enc a ++ enc b.
+Proof. unfold enc. rewrite map_app, flat_map_app. reflexivity. Qed.
+
+Lemma enc_one te : enc [te] = encode (snd te).
+Proof. unfold enc. cbn [map flat_map]. apply app_nil_r. Qed.
+
+Lemma enc_cons te l : enc (te :: l) = encode (snd te) ++ enc l.
+Proof. reflexivity. Qed.
+
+Lemma MB_enc v t : MB v t = encode (marker_ev v t).
+Proof.
+  unfold MB.
+  assert (B : built [] (marker v t)).
+  { unfold built, marker. cbn [h_flags ev_payload ovni_ev_set_mcv ovni_ev_set_clock ev_zero]. repeat split. left. reflexivity. }
+  pose proof (image_built _ _ B) as I. change (12 + zlength (@nil Z)) with 12 in I. rewrite I.
+  reflexivity.
+Qed.
+
+Lemma zlength_marker v t : zlength (encode (marker_ev v t)) = 12.
+Proof.
+  unfold encode, marker_ev. cbn [u_jumbo u_data u_m u_c u_v u_clock].
+  rewrite app_nil_r. rewrite zlength_app, zlength_le_bytes. reflexivity.
+Qed.
+
+Lemma zlength_encode e : zlength (encode e) = esize e.
+Proof.
+  unfold encode, esize, HEADER_SIZE. destruct (u_jumbo e).
+  - rewrite !zlength_app, !zlength_le_bytes. cbn [zlength fold_left]. lia.
+  - rewrite !zlength_app, !zlength_le_bytes. cbn [zlength fold_left]. lia.
+Qed.
+
+Lemma buf_bytes_append s b n : buf_bytes (append s b n) = buf_bytes s ++ b.
+Proof. unfold buf_bytes. cbn [buf append rev]. rewrite concat_app. cbn [concat]. rewrite app_nil_r. reflexivity. Qed.
+Lemma disk_bytes_append s b n : disk_bytes (append s b n) = disk_bytes s.
+Proof. reflexivity. Qed.
+Lemma buf_bytes_flush s : buf_bytes (flush_evbuf s) = [].
+Proof. reflexivity. Qed.
+Lemma disk_bytes_flush s : disk_bytes (flush_evbuf s) = disk_bytes s ++ buf_bytes s.
+Proof. unfold disk_bytes. cbn [wr flush_evbuf rev]. rewrite concat_app. cbn [concat]. rewrite app_nil_r. reflexivity. Qed.
+Lemma buf_bytes_set_clk s c : buf_bytes (set_clk s c) = buf_bytes s.
+Proof. reflexivity. Qed.
+Lemma disk_bytes_set_clk s c : disk_bytes (set_clk s c) = disk_bytes s.
+Proof. reflexivity. Qed.
+Lemma clk_set_clk s c : clk (set_clk s c) = c.
+Proof. reflexivity. Qed.
+Lemma clk_flush s : clk (flush_evbuf s) = clk s.
+Proof. reflexivity. Qed.
+Lemma evlen_flush s : evlen (flush_evbuf s) = 0.
+Proof. reflexivity. Qed.
+Lemma buf_bytes_appends chunks : forall s, buf_bytes (appends s chunks) = buf_bytes s ++ concat (map fst chunks).
+Proof.
+  induction chunks as [|[b n] r IH]; intros s; cbn [appends map concat fst].
+  - rewrite app_nil_r. reflexivity.
+  - rewrite IH, buf_bytes_append, app_assoc. reflexivity.
+Qed.
+Lemma disk_bytes_appends chunks : forall s, disk_bytes (appends s chunks) = disk_bytes s.
+Proof. induction chunks as [|[b n] r IH]; intros s; cbn [appends]; [reflexivity | rewrite IH; reflexivity]. Qed.
+
+Lemma buf_bytes_pushm s v t : buf_bytes (pushm s v t) = buf_bytes s ++ encode (marker_ev v t).
+Proof. unfold pushm. rewrite buf_bytes_append, MB_enc. reflexivity. Qed.
+Lemma disk_bytes_pushm s v t : disk_bytes (pushm s v t) = disk_bytes s.
+Proof. reflexivity. Qed.
+Lemma evlen_pushm s v t : evlen (pushm s v t) = evlen s + 12.
+Proof. reflexivity. Qed.
+Lemma ready_pushm s v t : ready (pushm s v t) = ready s.
+Proof. reflexivity. Qed.
+Lemma clk_pushm s v t : clk (pushm s v t) = clk s.
+Proof. reflexivity. Qed.
+
+Global Opaque pushm.
+
+#[export] Hint Rewrite buf_bytes_pushm disk_bytes_pushm evlen_pushm ready_pushm clk_pushm
+  buf_bytes_append disk_bytes_append evlen_append ready_append clk_append
+  buf_bytes_flush disk_bytes_flush evlen_flush ready_flush clk_flush
+  buf_bytes_set_clk disk_bytes_set_clk evlen_set_clk ready_set_clk clk_set_clk
+  buf_bytes_appends disk_bytes_appends evlen_appends ready_appends clk_appends : st.
+
+Definition Rel (cap : Z) (s : rt) (dl bl : list (tag * uev)) : Prop :=
+  ready s = true /\
+  disk_bytes s = STREAM_HEADER ++ enc dl /\
+  buf_bytes s = enc bl /\
+  evlen s = zlength (enc bl) /\
+  evlen s < cap.
+
+Definition astate : Type := (list (tag * uev) * list (tag * uev) * list Z)%type.
+
+(* what adding one event does to (disk events, buffer events, remaining clock) *)
+Inductive Trans (fx : bool) (te : tag * uev) : astate -> astate -> Prop :=
+| T_fit dl bl c :
+    Trans fx te (dl, bl, c) (dl, bl ++ [te], c)
+| T_flush1 dl bl t0 t1 r :
+    Trans fx te (dl, bl, t0 :: t1 :: r) (dl ++ bl, [te; OFb t0; OFe t1], r)
+| T_flush2 dl bl t0 t1 t2 r : fx = true ->
+    Trans fx te (dl, bl, t0 :: t1 :: t2 :: r) (dl ++ bl ++ [te], [OFb t0; OFe t2], r)
+| T_old_nest dl bl t0 t1 t0' t1' r : fx = false ->
+    Trans fx te (dl, bl, t0 :: t1 :: t0' :: t1' :: r) (dl ++ bl ++ [te], [OFb t0; OFb t0'; OFe t1'; OFe t1], r)
+| T_old_two dl bl t0 t1 t0' t1' r : fx = false ->
+    Trans fx te (dl, bl, t0 :: t1 :: t0' :: t1' :: r) (dl ++ bl ++ [te; OFb t0], [OFe t1; OFb t0'; OFe t1'], r).
+
+Ltac rel_tac :=
+  unfold Rel; autorewrite with st;
+  rewrite ?enc_app, ?enc_cons, ?enc_one; cbn [snd OFb OFe enc flat_map map];
+  rewrite ?zlength_app, ?zlength_marker, ?(@zlength_nil Z), ?app_nil_r, <- ?app_assoc.
+
+Lemma awf_trans fx cap s dl bl chunks total te s' :
+  64 <= cap ->
+  Rel cap s dl bl ->
+  concat (map fst chunks) = encode (snd te) ->
+  total = fold_right Z.add 0 (map snd chunks) ->
+  total = zlength (encode (snd te)) ->
+  total < cap ->
+  big_awf fx cap chunks total s = ROk s' ->
+  exists dl' bl', Rel cap s' dl' bl' /\ Trans fx te (dl, bl, clk s) (dl', bl', clk s').
+Proof.
+  intros Hcap (R & D & B & EL & LC) CC TS TZ TL H.
+  pose proof (zlength_nonneg (enc bl)) as NN.
+  pose proof (zlength_nonneg (encode (snd te))) as NE.
+  unfold big_awf in H. destruct (evlen s + total >=? cap) eqn:E.
+  2:{ inversion H; subst s'; clear H. exists dl, (bl ++ [te]). split.
+      - rel_tac. rewrite R, D, B, CC, <- TS. repeat split; lia.
+      - autorewrite with st. constructor. }
+  destruct (clk s) as [|t0 [|t1 r]] eqn:EC; try discriminate.
+  unfold big_afe in H. autorewrite with st in H. cbn [Z.add] in H.
+  rewrite <- TS in H.
+  destruct fx eqn:FX.
+  - destruct (total + 24 >=? cap) eqn:E24.
+    + destruct r as [|t2 r']; [discriminate|]. inversion H; subst s'; clear H.
+      exists (dl ++ bl ++ [te]), [OFb t0; OFe t2]. split.
+      * rel_tac. rewrite R, D, B, CC. repeat split; try lia; try (rewrite <- ?app_assoc; reflexivity).
+      * autorewrite with st. constructor. reflexivity.
+    + inversion H; subst s'; clear H.
+      exists (dl ++ bl), [te; OFb t0; OFe t1]. split.
+      * rel_tac. rewrite R, D, B, CC, <- TS. repeat split; try lia; try (rewrite <- ?app_assoc; reflexivity).
+      * autorewrite with st. constructor.
+  - destruct (total + 12 >=? cap) eqn:E12.
+    + destruct r as [|t0' [|t1' r']]; try discriminate. inversion H; subst s'; clear H.
+      exists (dl ++ bl ++ [te]), [OFb t0; OFb t0'; OFe t1'; OFe t1]. split.
+      * rel_tac. rewrite R, D, B, CC. repeat split; try lia; try (rewrite <- ?app_assoc; reflexivity).
+      * autorewrite with st. constructor. reflexivity.
+    + destruct (total + 24 >=? cap) eqn:E24.
+      * destruct r as [|t0' [|t1' r']]; try discriminate. inversion H; subst s'; clear H.
+        exists (dl ++ bl ++ [te; OFb t0]), [OFe t1; OFb t0'; OFe t1']. split.
+        -- rel_tac. rewrite R, D, B, CC. repeat split; try lia; try (rewrite <- ?app_assoc; reflexivity).
+        -- autorewrite with st. apply T_old_two. reflexivity.
+      * inversion H; subst s'; clear H.
+        exists (dl ++ bl), [te; OFb t0; OFe t1]. split.
+        -- rel_tac. rewrite R, D, B, CC, <- TS. repeat split; try lia; try (rewrite <- ?app_assoc; reflexivity).
+        -- autorewrite with st. constructor.
+Qed.
+
+(* ------------------------------------------------------------------ the API calls as transitions *)
+
+Lemma Rel_set_clk cap s dl bl c : Rel cap s dl bl -> Rel cap (set_clk s c) dl bl.
+Proof. unfold Rel. autorewrite with st. tauto. Qed.
+
+Lemma clock_now_cons s t r : clk s = t :: r -> clock_now s = ROk (t, set_clk s r).
+Proof. intros H. unfold clock_now. rewrite H. reflexivity. Qed.
+
+Lemma clock_now_nil s : clk s = [] -> clock_now s = RNoClock.
+Proof. intros H. unfold clock_now. rewrite H. reflexivity. Qed.
+
+(* a normal event built through the API, then ovni_ev_add *)
+Lemma add_normal fx cap s dl bl m c v chunks ev t s' :
+  64 <= cap -> Rel cap s dl bl ->
+  build m c v chunks = Ret ev -> chunks_okb chunks = true ->
+  ovni_ev_add fx cap FUEL (ovni_ev_set_clock ev t) s = ROk s' ->
+  exists dl' bl', Rel cap s' dl' bl' /\
+    Trans fx (User, mkU false m c v t (concat chunks)) (dl, bl, clk s) (dl', bl', clk s').
+Proof.
+  intros Hcap RL BE CO H.
+  destruct (image_normal m c v t chunks ev BE CO) as [SZ IM]. cbn zeta in SZ, IM.
+  set (e := mkU false m c v t (concat chunks)) in *.
+  assert (Hsz : 12 <= esize e <= 28).
+  { unfold esize, e, HEADER_SIZE. cbn [u_jumbo u_data]. unfold chunks_okb in CO.
+    pose proof (zlength_nonneg (concat chunks)). lia. }
+  change FUEL with (S (S (S 1))) in H.
+  rewrite (ev_add_eq fx cap Hcap 1%nat _ s (esize e)) in H; [| apply RL | symmetry; exact SZ | lia].
+  rewrite SZ in IM. rewrite IM in H.
+  eapply (awf_trans fx cap s dl bl _ _ (User, e)); [exact Hcap | exact RL | | | | | exact H].
+  - cbn [map fst concat snd]. apply app_nil_r.
+  - cbn [map snd fold_right]. lia.
+  - cbn [snd]. symmetry. apply zlength_encode.
+  - lia.
+Qed.
+
+Lemma add_jumbo fx cap s dl bl m c v t data s' :
+  64 <= cap -> Rel cap s dl bl -> zlength data < 2 ^ 32 ->
+  ovni_ev_add_jumbo fx cap FUEL (ovni_ev_set_clock (ovni_ev_set_mcv ev_zero m c v) t) data s = ROk s' ->
+  16 + zlength data < cap /\
+  exists dl' bl', Rel cap s' dl' bl' /\
+    Trans fx (User, mkU true m c v t data) (dl, bl, clk s) (dl', bl', clk s').
+Proof.
+  intros Hcap RL Hn H.
+  pose proof (zlength_nonneg data) as NN.
+  destruct (image_jumbo m c v t (zlength data) ltac:(lia)) as [PS (ev1 & PA & SZ & IM)]. cbn zeta in PS, PA.
+  unfold ovni_ev_add_jumbo in H.
+  destruct RL as (R & RL'). rewrite R in H. cbn [negb] in H.
+  rewrite PS in H. cbn [Z.eqb negb] in H. rewrite PA in H. rewrite SZ in H.
+  destruct (16 + zlength data >=? cap) eqn:E; [discriminate|].
+  split; [lia|].
+  change FUEL with (S (S 2)) in H.
+  rewrite (awf_eq fx cap Hcap 2%nat) in H; [| exact R | cbn [map snd fold_right]; lia | lia].
+  rewrite IM in H.
+  set (e := mkU true m c v t data).
+  eapply (awf_trans fx cap s dl bl _ _ (User, e)); [exact Hcap | split; [exact R | exact RL'] | | | | | exact H].
+  - cbn [map fst concat snd]. rewrite app_nil_r. unfold encode, e. cbn [u_jumbo u_m u_c u_v u_clock u_data].
+    rewrite <- !app_assoc. reflexivity.
+  - cbn [map snd fold_right]. lia.
+  - cbn [snd]. rewrite zlength_encode. unfold esize, e, HEADER_SIZE. cbn [u_jumbo u_data]. lia.
+  - lia.
+Qed.
+
+Lemma jumbo_too_large fx cap s m c v t data :
+  ready s = true -> zlength data < 2 ^ 32 -> 16 + zlength data >= cap ->
+  ovni_ev_add_jumbo fx cap FUEL (ovni_ev_set_clock (ovni_ev_set_mcv ev_zero m c v) t) data s = RAbort.
+Proof.
+  intros R Hn L. pose proof (zlength_nonneg data) as NN.
+  destruct (image_jumbo m c v t (zlength data) ltac:(lia)) as [PS (ev1 & PA & SZ & IM)]. cbn zeta in PS, PA.
+  unfold ovni_ev_add_jumbo. rewrite R. cbn [negb]. rewrite PS. cbn [Z.eqb negb]. rewrite PA, SZ.
+  destruct (16 + zlength data >=? cap) eqn:E; [reflexivity | lia].
+Qed.
+
+Lemma flush_trans fx cap s dl bl s' :
+  64 <= cap -> Rel cap s dl bl ->
+  ovni_flush fx cap FUEL s = ROk s' ->
+  exists t0 t1 r, clk s = t0 :: t1 :: r /\ clk s' = r /\ Rel cap s' (dl ++ bl) [OFb t0; OFe t1].
+Proof.
+  intros Hcap (R & D & B & EL & LC) H. unfold ovni_flush in H. rewrite R in H. cbn [negb] in H.
+  unfold clock_now in H. destruct (clk s) as [|t0 [|t1 r]] eqn:EC; try discriminate.
+  cbn [rbind clk set_clk flush_evbuf] in H.
+  change FUEL with (S 3) in H.
+  rewrite (markers_fit fx cap 3%nat) in H; [| exact R | cbn; lia | cbn; lia].
+  inversion H; subst s'; clear H.
+  exists t0, t1, r. split; [reflexivity|]. split; [reflexivity|].
+  rel_tac. rewrite R, D, B. repeat split; try lia; try (rewrite <- ?app_assoc; reflexivity).
+Qed.
+
+Definition mark_v (o : op) : option (Z * Z * Z) :=
+  match o with
+  | MarkPush ty va => Some (c_LB, ty, va)
+  | MarkPop ty va => Some (c_RB, ty, va)
+  | MarkSet ty va => Some (c_EQ, ty, va)
+  | _ => None
+  end.
+
+Definition ev_of (o : op) (t : Z) : option uev :=
+  match o with
+  | Emit m c v chunks => Some (mkU false m c v t (concat chunks))
+  | JumboEmit m c v data => Some (mkU true m c v t data)
+  | MarkPush ty va => Some (mkU false c_O c_M c_LB t (concat (mark_payload ty va)))
+  | MarkPop ty va => Some (mkU false c_O c_M c_RB t (concat (mark_payload ty va)))
+  | MarkSet ty va => Some (mkU false c_O c_M c_EQ t (concat (mark_payload ty va)))
+  | Flush | Free => None
+  end.
+
+Inductive AStep (fx : bool) : op -> astate * list uev -> astate * list uev -> Prop :=
+| A_event o e t dl bl r dl' bl' r' log :
+    ev_of o t = Some e -> Trans fx (User, e) (dl, bl, r) (dl', bl', r') ->
+    AStep fx o ((dl, bl, t :: r), log) ((dl', bl', r'), log ++ [e])
+| A_flush dl bl t0 t1 r log :
+    AStep fx Flush ((dl, bl, t0 :: t1 :: r), log) ((dl ++ bl, [OFb t0; OFe t1], r), log).
+
+Lemma mark_chunks_ok ty va : chunks_okb (mark_payload ty va) = true.
+Proof.
+  unfold chunks_okb, mark_payload. cbn [forallb concat]. rewrite !zlength_app, !zlength_le_bytes. reflexivity.
+Qed.
+
+Lemma mark_trans fx cap s dl bl v ty va log s' log' :
+  64 <= cap -> Rel cap s dl bl ->
+  mark fx cap v ty va (s, log) = ROk (s', log') ->
+  va <> 0 /\
+  exists t r dl' bl', clk s = t :: r /\ log' = log ++ [mkU false c_O c_M v t (concat (mark_payload ty va))] /\
+    Rel cap s' dl' bl' /\
+    Trans fx (User, mkU false c_O c_M v t (concat (mark_payload ty va))) (dl, bl, r) (dl', bl', clk s').
+Proof.
+  intros Hcap RL H. unfold mark in H.
+  destruct (va =? 0) eqn:E0; [discriminate|]. split; [lia|].
+  unfold clock_now in H. destruct (clk s) as [|t r] eqn:EC; [discriminate|]. cbn [rbind] in H.
+  destruct (build_ok c_O c_M v (mark_payload ty va) (mark_chunks_ok ty va)) as (ev & BE & _).
+  rewrite BE in H.
+  destruct (ovni_ev_add fx cap FUEL (ovni_ev_set_clock ev t) (set_clk s r)) as [s2| | |] eqn:EA; try discriminate.
+  cbn [rbind] in H. inversion H; subst s' log'; clear H.
+  destruct (add_normal fx cap _ dl bl _ _ _ _ _ t s2 Hcap (Rel_set_clk cap s dl bl r RL) BE (mark_chunks_ok ty va) EA)
+    as (dl' & bl' & RL' & TR).
+  exists t, r, dl', bl'. rewrite clk_set_clk in TR.
+  split; [reflexivity|]. split; [reflexivity|]. split; [exact RL' | exact TR].
+Qed.
+
+Theorem step_astep fx cap s dl bl o log s' log' :
+  64 <= cap -> Rel cap s dl bl -> op_wfb o = true -> o <> Free ->
+  step fx cap o (s, log) = ROk (s', log') ->
+  api_okb cap o = true /\
+  exists dl' bl', Rel cap s' dl' bl' /\ AStep fx o ((dl, bl, clk s), log) ((dl', bl', clk s'), log').
+Proof.
+  intros Hcap RL WF NF H. destruct o as [m c v chunks | m c v data | | ty va | ty va | ty va | ].
+  - (* Emit *)
+    cbn [step] in H. cbn [api_okb].
+    destruct (chunks_okb chunks) eqn:CO.
+    2:{ rewrite (build_die m c v chunks CO) in H. discriminate. }
+    split; [reflexivity|].
+    destruct (build_ok m c v chunks CO) as (ev & BE & _). rewrite BE in H.
+    unfold clock_now in H. destruct (clk s) as [|t r] eqn:EC; [discriminate|]. cbn [rbind] in H.
+    destruct (ovni_ev_add fx cap FUEL (ovni_ev_set_clock ev t) (set_clk s r)) as [s2| | |] eqn:EA; try discriminate.
+    cbn [rbind] in H. inversion H; subst s' log'; clear H.
+    destruct (add_normal fx cap _ dl bl _ _ _ _ _ t s2 Hcap (Rel_set_clk cap s dl bl r RL) BE CO EA) as (dl' & bl' & RL' & TR).
+    exists dl', bl'. split; [exact RL'|]. rewrite clk_set_clk in TR.
+    apply A_event; [reflexivity | exact TR].
+  - (* JumboEmit *)
+    cbn [step] in H. cbn [api_okb op_wfb] in *.
+    unfold clock_now in H. destruct (clk s) as [|t r] eqn:EC; [discriminate|]. cbn [rbind] in H.
+    destruct (ovni_ev_add_jumbo fx cap FUEL _ data (set_clk s r)) as [s2| | |] eqn:EA; try discriminate.
+    cbn [rbind] in H. inversion H; subst s' log'; clear H.
+    destruct (add_jumbo fx cap _ dl bl m c v t data s2 Hcap (Rel_set_clk cap s dl bl r RL) ltac:(lia) EA) as (L & dl' & bl' & RL' & TR).
+    split; [lia|].
+    exists dl', bl'. split; [exact RL'|]. rewrite clk_set_clk in TR.
+    apply A_event; [reflexivity | exact TR].
+  - (* Flush *)
+    cbn [step] in H. split; [reflexivity|].
+    destruct (ovni_flush fx cap FUEL s) as [s2| | |] eqn:EF; try discriminate.
+    cbn [rbind] in H. inversion H; subst s' log'; clear H.
+    destruct (flush_trans fx cap s dl bl s2 Hcap RL EF) as (t0 & t1 & r & EC & EC' & RL').
+    exists (dl ++ bl), [OFb t0; OFe t1]. split; [exact RL'|]. rewrite EC, EC'. apply A_flush.
+  - cbn [step] in H. destruct (mark_trans fx cap s dl bl _ ty va log s' log' Hcap RL H) as (NZ & t & r & dl' & bl' & EC & -> & RL' & TR).
+    split; [cbn [api_okb]; lia|]. exists dl', bl'. split; [exact RL'|]. rewrite EC. apply A_event; [reflexivity | exact TR].
+  - cbn [step] in H. destruct (mark_trans fx cap s dl bl _ ty va log s' log' Hcap RL H) as (NZ & t & r & dl' & bl' & EC & -> & RL' & TR).
+    split; [cbn [api_okb]; lia|]. exists dl', bl'. split; [exact RL'|]. rewrite EC. apply A_event; [reflexivity | exact TR].
+  - cbn [step] in H. destruct (mark_trans fx cap s dl bl _ ty va log s' log' Hcap RL H) as (NZ & t & r & dl' & bl' & EC & -> & RL' & TR).
+    split; [cbn [api_okb]; lia|]. exists dl', bl'. split; [exact RL'|]. rewrite EC. apply A_event; [reflexivity | exact TR].
+  - congruence.
+Qed.
+
+(* ------------------------------------------------------------------ part 3: runs *)
+
+Inductive ASteps (fx : bool) : list op -> astate * list uev -> astate * list uev -> Prop :=
+| AS_nil x : ASteps fx [] x x
+| AS_cons o ops x y z : AStep fx o x y -> ASteps fx ops y z -> ASteps fx (o :: ops) x z.
+
+Definition is_free (o : op) : bool := match o with Free => true | _ => false end.
+
+Lemma run_from_asteps fx cap : 64 <= cap -> forall ops s log dl bl s' log',
+  Rel cap s dl bl -> forallb op_wfb ops = true -> existsb is_free ops = false ->
+  run_from fx cap ops (s, log) = ROk (s', log') ->
+  forallb (api_okb cap) ops = true /\
+  exists dl' bl', Rel cap s' dl' bl' /\ ASteps fx ops ((dl, bl, clk s), log) ((dl', bl', clk s'), log').
+Proof.
+  intros Hcap. induction ops as [|o ops IH]; intros s log dl bl s' log' RL WF NF H.
+  - cbn [run_from] in H. inversion H; subst. split; [reflexivity|]. exists dl, bl. split; [exact RL | constructor].
+  - cbn [run_from] in H. cbn [forallb existsb] in WF, NF.
+    apply andb_prop in WF. destruct WF as [WF1 WF2]. apply orb_false_elim in NF. destruct NF as [NF1 NF2].
+    destruct (step fx cap o (s, log)) as [[s1 log1]| | |] eqn:ES; try discriminate. cbn [rbind] in H.
+    assert (NFo : o <> Free) by (intros ->; discriminate).
+    destruct (step_astep fx cap s dl bl o log s1 log1 Hcap RL WF1 NFo ES) as (AO & dl1 & bl1 & RL1 & A1).
+    destruct (IH s1 log1 dl1 bl1 s' log' RL1 WF2 NF2 H) as (AO2 & dl' & bl' & RL' & A2).
+    split; [cbn [forallb]; rewrite AO, AO2; reflexivity|].
+    exists dl', bl'. split; [exact RL'|]. econstructor; eassumption.
+Qed.
+
+Lemma Rel_init cap clock : 64 <= cap -> Rel cap (thread_init clock) [] [].
+Proof.
+  intros Hcap. unfold Rel, thread_init. autorewrite with st.
+  cbn [ready evlen buf_bytes disk_bytes buf wr rev concat app enc map flat_map].
+  repeat split; try lia.
+Qed.
+
+Lemma clk_init clock : clk (thread_init clock) = clock.
+Proof. reflexivity. Qed.
+
+(* --- shape of a transition *)
+
+Definition lib_ok (te : tag * uev) : Prop := is_user te = false -> is_markerb (snd te) = true.
+Definition u64 (t : Z) : Prop := 0 <= t < 2 ^ 64.
+Definition is_lib_marker (pre : list Z) (x : tag * uev) : Prop :=
+  exists v t, x = (Lib, marker_ev v t) /\ (v = c_LB \/ v = c_RB) /\ In t pre.
+
+Lemma Trans_shape fx te dl bl c dl' bl' c' :
+  Trans fx te (dl, bl, c) (dl', bl', c') ->
+  exists libs pre, dl' ++ bl' = (dl ++ bl) ++ te :: libs /\ c = pre ++ c' /\ Forall (is_lib_marker pre) libs.
+Proof.
+  intros T. inversion T; subst; clear T.
+  - exists [], []. repeat split; [rewrite app_assoc; reflexivity | constructor].
+  - exists [OFb t0; OFe t1], [t0; t1]. repeat split.
+    repeat constructor; eexists _, _; (split; [reflexivity|]); cbn; tauto.
+  - exists [OFb t0; OFe t2], [t0; t1; t2]. repeat split; [rewrite <- !app_assoc; reflexivity|].
+    repeat constructor; eexists _, _; (split; [reflexivity|]); cbn; tauto.
+  - exists [OFb t0; OFb t0'; OFe t1'; OFe t1], [t0; t1; t0'; t1']. repeat split; [rewrite <- !app_assoc; reflexivity|].
+    repeat constructor; eexists _, _; (split; [reflexivity|]); cbn; tauto.
+  - exists [OFb t0; OFe t1; OFb t0'; OFe t1'], [t0; t1; t0'; t1']. repeat split; [rewrite <- !app_assoc; reflexivity|].
+    repeat constructor; eexists _, _; (split; [reflexivity|]); cbn; tauto.
+Qed.
+
+(* --- well-formedness of the events *)
+
+Lemma forallb_byte d : forallb byteb d = true <-> Forall byte d.
+Proof.
+  rewrite forallb_forall, Forall_forall. unfold byteb, byte. split; intros H x Hx; specialize (H x Hx); lia.
+Qed.
+
+Lemma wf_intro (j : bool) m c v t d :
+  byteb m = true -> byteb c = true -> byteb v = true -> u64 t -> forallb byteb d = true ->
+  (if j then zlength d < 2 ^ 32 else zlength d = 0 \/ 2 <= zlength d <= 16) ->
+  wf_uev (mkU j m c v t d).
+Proof.
+  intros Hm Hc Hv Ht Hd Hn. unfold wf_uev, wf_uevb. cbn [u_jumbo u_m u_c u_v u_clock u_data].
+  rewrite Hm, Hc, Hv, Hd. unfold u64 in Ht. destruct j; lia.
+Qed.
+
+Lemma forallb_concat (P : Z -> bool) chunks :
+  forallb (forallb P) chunks = true -> forallb P (concat chunks) = true.
+Proof.
+  induction chunks as [|ch r IH]; cbn [forallb concat]; [reflexivity|].
+  intros H. apply andb_prop in H. destruct H as [H1 H2]. rewrite forallb_app, H1, IH; [reflexivity | exact H2].
+Qed.
+
+Lemma chunks_ok_len chunks :
+  chunks_okb chunks = true -> zlength (concat chunks) = 0 \/ 2 <= zlength (concat chunks) <= 16.
+Proof.
+  unfold chunks_okb. intros H. apply andb_prop in H. destruct H as [H1 H2].
+  destruct chunks as [|ch r]; [left; reflexivity|]. right.
+  cbn [forallb concat] in *. apply andb_prop in H1. destruct H1 as [H1 _].
+  rewrite zlength_app in *. pose proof (zlength_nonneg (concat r)). lia.
+Qed.
+
+Lemma marker_wf v t : (v = c_LB \/ v = c_RB) -> u64 t -> wf_uev (marker_ev v t).
+Proof.
+  intros Hv Ht. unfold marker_ev. apply wf_intro; try reflexivity; try exact Ht.
+  - destruct Hv as [-> | ->]; reflexivity.
+  - left. reflexivity.
+Qed.
+
+Lemma marker_is_marker v t : (v = c_LB \/ v = c_RB) -> is_markerb (marker_ev v t) = true.
+Proof. intros [-> | ->]; reflexivity. Qed.
+
+Lemma ev_of_wf cap o t e :
+  op_wfb o = true -> api_okb cap o = true -> u64 t -> ev_of o t = Some e -> wf_uev e.
+Proof.
+  intros WF AO Ht E.
+  assert (MK : forall v ty va, byteb v = true -> wf_uev (mkU false c_O c_M v t (concat (mark_payload ty va)))).
+  { intros v ty va Hv. apply wf_intro; try reflexivity; try assumption.
+    - unfold mark_payload. cbn [concat]. rewrite app_nil_r. apply forallb_byte.
+      apply Forall_app. split; apply le_bytes_byte.
+    - right. pose proof (mark_chunks_ok ty va) as C. apply chunks_ok_len in C.
+      unfold mark_payload in *. cbn [concat] in *. rewrite !zlength_app, !zlength_le_bytes in *.
+      cbn in *. lia. }
+  destruct o; cbn [ev_of] in E; inversion E; subst e; clear E; cbn [op_wfb api_okb] in *.
+  Local Opaque byteb.
+  - repeat (apply andb_prop in WF; destruct WF as [WF ?]).
+    apply wf_intro; try assumption. + apply forallb_concat. assumption. + apply chunks_ok_len. exact AO.
+  - repeat (apply andb_prop in WF; destruct WF as [WF ?]).
+    apply wf_intro; try assumption. lia.
+  - apply MK. reflexivity.
+  - apply MK. reflexivity.
+  - apply MK. reflexivity.
+  Local Transparent byteb.
+Qed.
+
+(* --- the C01 invariant *)
+
+Definition Inv1 (st : astate * list uev) : Prop :=
+  let '((dl, bl, c), log) := st in
+  map snd (filter is_user (dl ++ bl)) = log /\
+  Forall lib_ok (dl ++ bl) /\
+  Forall wf_uev (map snd (dl ++ bl)) /\
+  Forall u64 c.
+
+Lemma libs_facts pre libs :
+  Forall u64 pre -> Forall (is_lib_marker pre) libs ->
+  filter is_user libs = [] /\ Forall lib_ok libs /\ Forall wf_uev (map snd libs).
+Proof.
+  intros Hp H. induction H as [|x libs (v & t & -> & Hv & Ht) _ IH].
+  - repeat split; constructor.
+  - destruct IH as (I1 & I2 & I3). rewrite Forall_forall in Hp. specialize (Hp t Ht).
+    cbn [filter is_user fst map snd]. repeat split.
+    + exact I1.
+    + constructor; [|exact I2]. intros _. cbn [snd]. apply marker_is_marker. exact Hv.
+    + constructor; [|exact I3]. apply marker_wf; assumption.
+Qed.
+
+Lemma Inv1_event fx e dl bl t r dl' bl' r' log :
+  Inv1 ((dl, bl, t :: r), log) -> wf_uev e ->
+  Trans fx (User, e) (dl, bl, r) (dl', bl', r') ->
+  Inv1 ((dl', bl', r'), log ++ [e]).
+Proof.
+  intros (U & L & W & C) We T.
+  destruct (Trans_shape _ _ _ _ _ _ _ _ T) as (libs & pre & E1 & E2 & LM).
+  rewrite E2 in C. apply Forall_cons_iff in C. destruct C as [Ct Cr]. apply Forall_app in Cr. destruct Cr as [Cpre Cr'].
+  destruct (libs_facts pre libs Cpre LM) as (F1 & F2 & F3).
+  unfold Inv1. rewrite E1. repeat split.
+  - rewrite filter_app, map_app, U. cbn [filter is_user fst]. rewrite F1. reflexivity.
+  - apply Forall_app. split; [exact L|]. constructor; [|exact F2]. intros Hu. discriminate.
+  - rewrite map_app. apply Forall_app. split; [exact W|]. cbn [map snd]. constructor; assumption.
+  - exact Cr'.
+Qed.
+
+Lemma Inv1_flush dl bl t0 t1 r log :
+  Inv1 ((dl, bl, t0 :: t1 :: r), log) -> Inv1 ((dl ++ bl, [OFb t0; OFe t1], r), log).
+Proof.
+  intros (U & L & W & C).
+  apply Forall_cons_iff in C. destruct C as [C0 C']. apply Forall_cons_iff in C'. destruct C' as [C1 C''].
+  unfold Inv1. repeat split.
+  - rewrite filter_app, map_app, U. cbn. apply app_nil_r.
+  - apply Forall_app. split; [exact L|]. repeat constructor.
+  - rewrite map_app. apply Forall_app. split; [exact W|]. cbn [map snd OFb OFe].
+    repeat constructor; apply marker_wf; auto.
+  - exact C''.
+Qed.
+
+Lemma Inv1_steps fx cap ops x y :
+  ASteps fx ops x y -> forallb op_wfb ops = true -> forallb (api_okb cap) ops = true -> Inv1 x -> Inv1 y.
+Proof.
+  induction 1 as [|o ops x y z A _ IH]; intros WF AO I; [exact I|].
+  cbn [forallb] in WF, AO. apply andb_prop in WF. destruct WF as [WF1 WF2].
+  apply andb_prop in AO. destruct AO as [AO1 AO2].
+  apply IH; try assumption. clear IH.
+  inversion A; subst; clear A.
+  - eapply Inv1_event; [exact I | | eassumption].
+    destruct I as (_ & _ & _ & C). apply Forall_cons_iff in C. destruct C as [C0 _].
+    eapply ev_of_wf; eassumption.
+  - apply Inv1_flush. exact I.
+Qed.
+
+Lemma fidelity_of_inv log l :
+  map snd (filter is_user l) = log -> Forall lib_ok l -> Forall wf_uev (map snd l) ->
+  fidelity log (STREAM_HEADER ++ enc l).
+Proof.
+  intros U L W. exists l. split; [reflexivity|]. split; [exact U|]. split; [exact L|]. split; [exact W|].
+  apply parse_stream_encode. exact W.
+Qed.
+
+Definition clock_u64b (clock : list Z) : bool := forallb (fun t => (0 <=? t) && (t <? 2 ^ 64)) clock.
+
+Lemma clock_u64 clock : clock_u64b clock = true -> Forall u64 clock.
+Proof.
+  unfold clock_u64b. rewrite forallb_forall, Forall_forall. intros H t Ht. specialize (H t Ht). unfold u64. lia.
+Qed.
+
+(* everything one needs to know about a successful run without ovni_thread_free *)
+Lemma run_summary fx cap ops clock s log :
+  64 <= cap -> forallb op_wfb ops = true -> existsb is_free ops = false -> clock_u64b clock = true ->
+  run fx cap ops clock = ROk (s, log) ->
+  forallb (api_okb cap) ops = true /\
+  exists dl bl, Rel cap s dl bl /\ ASteps fx ops (([], [], clock), []) ((dl, bl, clk s), log) /\
+                Inv1 ((dl, bl, clk s), log).
+Proof.
+  intros Hcap WF NF CK H. unfold run in H.
+  destruct (run_from_asteps fx cap Hcap ops _ _ [] [] s log (Rel_init cap clock Hcap) WF NF H) as (AO & dl & bl & RL & AS).
+  rewrite clk_init in AS. split; [exact AO|]. exists dl, bl. split; [exact RL|]. split; [exact AS|].
+  eapply Inv1_steps; try eassumption.
+  unfold Inv1. cbn. repeat split; try constructor. apply clock_u64. exact CK.
+Qed.
+
+Theorem fidelity_no_free fx cap ops clock s log :
+  64 <= cap -> forallb op_wfb ops = true -> existsb is_free ops = false -> clock_u64b clock = true ->
+  run fx cap ops clock = ROk (s, log) ->
+  fidelity log (disk_bytes s ++ buf_bytes s).
+Proof.
+  intros Hcap WF NF CK H.
+  destruct (run_summary fx cap ops clock s log Hcap WF NF CK H) as (_ & dl & bl & (R & D & B & _) & _ & (U & L & W & _)).
+  rewrite D, B, <- app_assoc, <- enc_app. apply fidelity_of_inv; assumption.
+Qed.
+
+Lemma run_from_app fx cap a : forall b st,
+  run_from fx cap (a ++ b) st = rbind (run_from fx cap a st) (run_from fx cap b).
+Proof.
+  induction a as [|o a IH]; intros b st; cbn [app run_from rbind]; [reflexivity|].
+  destruct (step fx cap o st) as [st1| | |]; cbn [rbind]; [apply IH | reflexivity | reflexivity | reflexivity].
+Qed.
+
+(* after ovni_flush(); ovni_thread_free(): the file alone holds every event; nothing is left in memory *)
+Theorem fidelity_after_free fx cap ops clock s log :
+  64 <= cap -> forallb op_wfb ops = true -> existsb is_free ops = false -> clock_u64b clock = true ->
+  run fx cap (ops ++ [Flush; Free]) clock = ROk (s, log) ->
+  fidelity log (disk_bytes s) /\ buf_bytes s = [] /\ ready s = false.
+Proof.
+  intros Hcap WF NF CK H. unfold run in H.
+  replace (ops ++ [Flush; Free]) with ((ops ++ [Flush]) ++ [Free]) in H by (rewrite <- app_assoc; reflexivity).
+  rewrite run_from_app in H.
+  destruct (run_from fx cap (ops ++ [Flush]) (thread_init clock, [])) as [[s1 log1]| | |] eqn:E1; try discriminate.
+  cbn [rbind run_from step] in H.
+  assert (WF' : forallb op_wfb (ops ++ [Flush]) = true) by (rewrite forallb_app, WF; reflexivity).
+  assert (NF' : existsb is_free (ops ++ [Flush]) = false) by (rewrite existsb_app, NF; reflexivity).
+  destruct (run_summary fx cap (ops ++ [Flush]) clock s1 log1 Hcap WF' NF' CK E1) as (_ & dl & bl & RL & AS & I).
+  (* the last step was the flush: the buffer holds exactly its two markers *)
+  assert (LAST : exists dl0 bl0 t0 t1, dl = dl0 ++ bl0 /\ bl = [OFb t0; OFe t1]).
+  { clear - AS. remember (([], [], clock), []) as x. clear Heqx. revert x AS.
+    induction ops as [|o ops IH]; intros x AS; cbn [app] in AS.
+    - inversion AS as [|? ? ? y ? A1 A2]; subst. inversion A2; subst. inversion A1; subst.
+      + cbn [ev_of] in *. discriminate.
+      + eexists _, _, _, _. split; reflexivity.
+    - inversion AS; subst. eapply IH. eassumption. }
+  destruct LAST as (dl0 & bl0 & t0 & t1 & -> & ->).
+  destruct RL as (R & D & B & _). unfold thread_free in H. rewrite R in H. cbn [negb rbind] in H.
+  inversion H; subst s log; clear H.
+  split; [|split; reflexivity].
+  change (disk_bytes (mkRt false 0 [] (wr s1) (clk s1))) with (disk_bytes s1). rewrite D.
+  destruct I as (U & L & W & _).
+  apply fidelity_of_inv.
+  - rewrite filter_app, map_app in U. cbn in U. rewrite app_nil_r in U. exact U.
+  - apply Forall_app in L. tauto.
+  - rewrite map_app in W. apply Forall_app in W. tauto.
+Qed.
+
+(* ------------------------------------------------------------------ C02: validity (repaired version) *)
+
+Fixpoint sortedZ (l : list Z) : Prop :=
+  match l with
+  | [] => True
+  | x :: r => Forall (Z.le x) r /\ sortedZ r
+  end.
+
+Lemma sortedZ_app a : forall b,
+  sortedZ (a ++ b) <-> sortedZ a /\ sortedZ b /\ (forall x y, In x a -> In y b -> x <= y).
+Proof.
+  induction a as [|x a IH]; intros b; cbn [app sortedZ].
+  - split; [intros H; repeat split; [exact H | intros ? ? []] | tauto].
+  - rewrite IH, Forall_app, !Forall_forall. split.
+    + intros ((H1 & H2) & H3 & H4 & H5). repeat split; try assumption.
+      intros u w [<- | Hu] Hw; [apply H2; exact Hw | apply H5; assumption].
+    + intros ((H1 & H2) & H3 & H4). repeat split; try assumption.
+      * intros w Hw. apply H4; [left; reflexivity | exact Hw].
+      * intros u w Hu Hw. apply H4; [right; exact Hu | exact Hw].
+Qed.
+
+Lemma sortedZ_drop a x b : sortedZ (a ++ x :: b) -> sortedZ (a ++ b).
+Proof.
+  rewrite !sortedZ_app. cbn [sortedZ]. intros (H1 & (H2 & H3) & H4). repeat split; try assumption.
+  intros u w Hu Hw. apply H4; [exact Hu | right; exact Hw].
+Qed.
+
+Lemma sortedb_sortedZ l : sortedb l = true -> sortedZ l.
+Proof.
+  induction l as [|x [|y r] IH]; intros H; cbn [sortedZ]; [exact I | split; [constructor | exact I] |].
+  change (sortedb (x :: y :: r)) with ((x <=? y) && sortedb (y :: r)) in H. apply andb_prop in H. destruct H as [H1 H2]. specialize (IH H2).
+  split; [|exact IH]. cbn [sortedZ] in IH. destruct IH as [IH1 _].
+  constructor; [lia|]. rewrite Forall_forall in *. intros w Hw. specialize (IH1 w Hw). lia.
+Qed.
+
+Lemma sortedZ_sortedb l : sortedZ l -> sortedb l = true.
+Proof.
+  induction l as [|x [|y r] IH]; intros H; [reflexivity | reflexivity |].
+  cbn [sortedZ] in H. destruct H as [H1 H2]. change (sortedb (x :: y :: r)) with ((x <=? y) && sortedb (y :: r)).
+  apply Forall_cons_iff in H1. destruct H1 as [H1 _]. rewrite IH by exact H2. lia.
+Qed.
+
+Lemma flush_scan_app a : forall d b,
+  flush_scan d (a ++ b) = match flush_scan d a with Some d' => flush_scan d' b | None => None end.
+Proof.
+  induction a as [|e a IH]; intros d b; cbn [app flush_scan]; [reflexivity|].
+  destruct (is_flush_ev e); [|apply IH].
+  destruct (u_v e =? c_LB); [destruct d; [reflexivity | apply IH]|].
+  destruct (u_v e =? c_RB); [destruct d; [apply IH | reflexivity] | reflexivity].
+Qed.
+
+Definition uclk (te : tag * uev) : Z := u_clock (snd te).
+
+Definition Inv2 (a : astate) : Prop :=
+  let '(dl, bl, c) := a in
+  sortedZ (map uclk (dl ++ bl) ++ c) /\
+  flush_scan false (map snd dl) = Some false /\
+  flush_scan false (map snd bl) = Some false.
+
+Lemma scan_pair t0 t1 : flush_scan false [marker_ev c_LB t0; marker_ev c_RB t1] = Some false.
+Proof. reflexivity. Qed.
+
+Ltac norm_l := rewrite ?map_app, <- ?app_assoc; cbn [map app uclk snd OFb OFe marker_ev u_clock].
+Ltac norm_in H := rewrite ?map_app, <- ?app_assoc in H; cbn [map app uclk snd OFb OFe marker_ev u_clock] in H.
+
+Lemma Inv2_event e dl bl t r dl' bl' r' :
+  Inv2 (dl, bl, t :: r) -> u_clock e = t -> is_flush_ev e = false ->
+  Trans true (User, e) (dl, bl, r) (dl', bl', r') ->
+  Inv2 (dl', bl', r').
+Proof.
+  intros (S & FD & FB) Ec Ef T. inversion T; subst; clear T; try discriminate; unfold Inv2; norm_in S.
+  - (* fits *)
+    repeat split.
+    + norm_l. exact S.
+    + exact FD.
+    + rewrite map_app, flush_scan_app, FB. cbn [map snd flush_scan]. rewrite Ef. reflexivity.
+  - (* one flush *)
+    repeat split.
+    + norm_l. exact S.
+    + rewrite map_app, flush_scan_app, FD. exact FB.
+    + cbn [map snd flush_scan]. rewrite Ef. reflexivity.
+  - (* two flushes: the second clock reading t1 is not used *)
+    repeat split.
+    + norm_l.
+      pose proof (sortedZ_drop (map uclk dl ++ map uclk bl ++ [u_clock e; t0]) t1 (t2 :: r')) as G.
+      rewrite <- !app_assoc in G. cbn [app] in G. exact (G S).
+    + rewrite !map_app. rewrite flush_scan_app, FD. rewrite flush_scan_app, FB.
+      cbn [map snd flush_scan]. rewrite Ef. reflexivity.
+Qed.
+
+Lemma Inv2_flush dl bl t0 t1 r :
+  Inv2 (dl, bl, t0 :: t1 :: r) -> Inv2 (dl ++ bl, [OFb t0; OFe t1], r).
+Proof.
+  intros (S & FD & FB). unfold Inv2. norm_in S. repeat split.
+  - norm_l. exact S.
+  - rewrite map_app, flush_scan_app, FD. exact FB.
+Qed.
+
+Lemma ev_of_clock o t e : ev_of o t = Some e -> u_clock e = t.
+Proof. destruct o; cbn [ev_of]; intros H; inversion H; reflexivity. Qed.
+
+Lemma ev_of_noflush o t e : user_flush_free o = true -> ev_of o t = Some e -> is_flush_ev e = false.
+Proof.
+  destruct o; cbn [ev_of user_flush_free]; intros F H; inversion H; subst e; clear H;
+    unfold is_flush_ev; cbn [u_m u_c]; try reflexivity; lia.
+Qed.
+
+Lemma Inv2_steps ops x y :
+  ASteps true ops x y -> forallb user_flush_free ops = true -> Inv2 (fst x) -> Inv2 (fst y).
+Proof.
+  induction 1 as [|o ops x y z A _ IH]; intros UF I; [exact I|].
+  cbn [forallb] in UF. apply andb_prop in UF. destruct UF as [UF1 UF2].
+  apply IH; [exact UF2|]. clear IH. inversion A; subst; clear A; cbn [fst] in *.
+  - eapply Inv2_event; [exact I | eapply ev_of_clock; eassumption | eapply ev_of_noflush; eassumption | eassumption].
+  - apply Inv2_flush. exact I.
+Qed.
+
+Lemma forallb_wf es : Forall wf_uev es -> forallb wf_uevb es = true.
+Proof. intros H. apply forallb_forall. rewrite Forall_forall in H. exact H. Qed.
+
+Lemma valid_of_inv l :
+  Forall wf_uev (map snd l) -> sortedZ (map uclk l) -> flush_scan false (map snd l) = Some false ->
+  valid_stream (STREAM_HEADER ++ enc l) = true.
+Proof.
+  intros W S F. unfold valid_stream, enc. rewrite (parse_stream_encode _ W).
+  unfold valid_events, flush_okb. rewrite (forallb_wf _ W), F, map_map.
+  change (fun x : tag * uev => u_clock (snd x)) with uclk. rewrite (sortedZ_sortedb _ S). reflexivity.
+Qed.
+
+Lemma clock_ok_parts clock : clock_okb clock = true -> clock_u64b clock = true /\ sortedZ clock.
+Proof.
+  unfold clock_okb. intros H. apply andb_prop in H. destruct H as [H1 H2]. split; [exact H1|].
+  apply sortedb_sortedZ. exact H2.
+Qed.
+
+Lemma run_summary2 cap ops clock s log :
+  64 <= cap -> forallb op_wfb ops = true -> existsb is_free ops = false -> clock_okb clock = true ->
+  forallb user_flush_free ops = true ->
+  run true cap ops clock = ROk (s, log) ->
+  exists dl bl, Rel cap s dl bl /\ Inv1 ((dl, bl, clk s), log) /\ Inv2 (dl, bl, clk s) /\
+                ASteps true ops (([], [], clock), []) ((dl, bl, clk s), log).
+Proof.
+  intros Hcap WF NF CK UF H. destruct (clock_ok_parts clock CK) as [CU CS].
+  destruct (run_summary true cap ops clock s log Hcap WF NF CU H) as (_ & dl & bl & RL & AS & I1).
+  exists dl, bl. split; [exact RL|]. split; [exact I1|]. split; [|exact AS].
+  apply (Inv2_steps ops _ _ AS UF). unfold Inv2. cbn [fst app map]. repeat split. exact CS.
+Qed.
+
+Theorem valid_no_free cap ops clock s log :
+  64 <= cap -> forallb op_wfb ops = true -> existsb is_free ops = false -> clock_okb clock = true ->
+  forallb user_flush_free ops = true ->
+  run true cap ops clock = ROk (s, log) ->
+  valid_stream (disk_bytes s) = true /\ valid_stream (disk_bytes s ++ buf_bytes s) = true.
+Proof.
+  intros Hcap WF NF CK UF H.
+  destruct (run_summary2 cap ops clock s log Hcap WF NF CK UF H) as (dl & bl & (R & D & B & _) & (_ & _ & W & _) & (S & FD & FB) & _).
+  rewrite map_app in W. apply Forall_app in W. destruct W as [WD WB].
+  apply sortedZ_app in S. destruct S as (S & _ & _).
+  split.
+  - rewrite D. apply valid_of_inv; [exact WD | | exact FD].
+    rewrite map_app in S. apply sortedZ_app in S. tauto.
+  - rewrite D, B, <- app_assoc, <- enc_app. apply valid_of_inv.
+    + rewrite map_app. apply Forall_app. tauto.
+    + exact S.
+    + rewrite map_app, flush_scan_app, FD. exact FB.
+Qed.
+
+Theorem valid_after_free cap ops clock s log :
+  64 <= cap -> forallb op_wfb ops = true -> existsb is_free ops = false -> clock_okb clock = true ->
+  forallb user_flush_free ops = true ->
+  run true cap (ops ++ [Flush; Free]) clock = ROk (s, log) ->
+  valid_stream (disk_bytes s) = true /\ fidelity log (disk_bytes s).
+Proof.
+  intros Hcap WF NF CK UF H. destruct (clock_ok_parts clock CK) as [CU _].
+  split; [|apply (fidelity_after_free true cap ops clock s log Hcap WF NF CU H)].
+  unfold run in H.
+  replace (ops ++ [Flush; Free]) with ((ops ++ [Flush]) ++ [Free]) in H by (rewrite <- app_assoc; reflexivity).
+  rewrite run_from_app in H.
+  destruct (run_from true cap (ops ++ [Flush]) (thread_init clock, [])) as [[s1 log1]| | |] eqn:E1; try discriminate.
+  cbn [rbind run_from step] in H.
+  assert (WF' : forallb op_wfb (ops ++ [Flush]) = true) by (rewrite forallb_app, WF; reflexivity).
+  assert (NF' : existsb is_free (ops ++ [Flush]) = false) by (rewrite existsb_app, NF; reflexivity).
+  assert (UF' : forallb user_flush_free (ops ++ [Flush]) = true) by (rewrite forallb_app, UF; reflexivity).
+  destruct (valid_no_free cap (ops ++ [Flush]) clock s1 log1 Hcap WF' NF' CK UF' E1) as [V _].
+  destruct (thread_free s1) as [s2| | |] eqn:TF; try discriminate. cbn [rbind] in H.
+  inversion H; subst s2 log1; clear H.
+  unfold thread_free in TF. destruct (negb (ready s1)); [discriminate|]. inversion TF; subst s.
+  exact V.
+Qed.
+
+(* ------------------------------------------------------------------ the version before the repair violates C02 *)
+
+Definition refute_ops : list op :=
+  [Emit 79 85 120 []; JumboEmit 79 66 46 (repeat 7 40); Flush; Free].
+Definition refute_clock : list Z := [10; 20; 30; 40; 50; 60; 70; 80; 90].
+
+Theorem valid_refuted :
+  exists cap ops clock s log,
+    64 <= cap /\ forallb op_wfb ops = true /\ existsb is_free ops = false /\ clock_okb clock = true /\
+    forallb user_flush_free ops = true /\
+    run false cap (ops ++ [Flush; Free]) clock = ROk (s, log) /\
+    valid_stream (disk_bytes s) = false.
+Proof.
+  exists 64, [Emit 79 85 120 []; JumboEmit 79 66 46 (repeat 7 40)], refute_clock.
+  destruct (run false 64 refute_ops refute_clock) as [[s log]| | |] eqn:E; try (vm_compute in E; discriminate).
+  exists s, log. repeat split; try (vm_compute; reflexivity); try lia.
+  - exact E.
+  - vm_compute in E. inversion E. vm_compute. reflexivity.
+Qed.
+
+(* ... and the very same program is fine with the repaired version *)
+Example refute_ops_repaired :
+  match run true 64 refute_ops refute_clock with
+  | ROk (s, _) => valid_stream (disk_bytes s) = true
+  | _ => False
+  end.
+Proof. vm_compute. reflexivity. Qed.
